@@ -15,7 +15,11 @@ def mech(tier, seed):
             # the streamed early exit inside the walk: LIMIT over every world / readdir order (row-count clause)
             dict(module="Walker", cfg="Walker_lim", workers=8, actions=[], coverage=False),
             # the result pipeline: header / separators / footer protocol, row counts per result path, streamed prefix
-            dict(module="Pipeline", cfg="Pipeline_q", workers=4, actions=["Header", "Offer", "Plan", "WriteRow", "Footer"])]
+            dict(module="Pipeline", cfg="Pipeline_q", workers=4, actions=["Header", "Offer", "Plan", "WriteRow", "Footer"])] + (
+        # thorough: the count-level abstraction of the pipeline for any number of entries and any limit (Apalache, inductive invariant)
+        [] if tier == "quick" else
+        [dict(module="PipelineInd", apalache=[("Init=>IndInv", "Init", "IndInv", 0), ("IndInv inductive", "IndInv", "IndInv", 1),
+                                              ("IndInv=>Safety", "IndInv", "Safety", 0)])])
 
 
 def _pipeline_conformance(ctx, tier, seed):
